@@ -37,7 +37,7 @@ Clauses
                         nor on hostile text; an expression payload is rejected or stored as data, never as its value
 
 Sites are "<Message>.<Block>.<Var>:<value class>" (value class = torture label, generic type class, or payload shape),
-"<Message>.<Block>:count0" for block lists, "operator:<op>" / "payload:<label>:<op>" for the safe-mode clause.
+"<Message>.<Block>:count0" for block lists, "operator:<op>" / "expression-under:=" / "expression-under:=|" for the safe-mode clause (payload label in witness + detail).
 
 Deviations from DESIGN: C09's payload generator does not exist yet, so valid subfield payloads are found by the fill x length
 enumeration above, filtered by the library's own decoder. +-inf rows are not run (Gen(finite_only=True)); payloads whose pretty
@@ -63,7 +63,7 @@ from hippolyzer.lib.base.message.udpserializer import UDPMessageSerializer
 from hippolyzer.lib.base.network.transport import Direction
 from hippolyzer.lib.base.settings import Settings
 
-from hmc import msggen
+from hmc import evalprobe, msggen
 from hmc.core import Part, Run, pmap
 
 LEVEL = "exploration"
@@ -245,6 +245,7 @@ class Sentinel:
 
 
 _REAL_EVAL = builtins.eval
+_REAL_EXEC = builtins.exec
 _EVALS = [0]
 
 
@@ -253,19 +254,47 @@ def _counting_eval(*a, **k):
     return _REAL_EVAL(*a, **k)
 
 
+def _counting_exec(*a, **k):
+    _EVALS[0] += 1
+    return _REAL_EXEC(*a, **k)
+
+
+def _alias_sites():
+    """Module-level names in the anchored modules that are bound to the real eval/exec (an alias captured at import time would
+    bypass a patch of builtins alone)."""
+    from hippolyzer.lib.base import helpers
+    from hippolyzer.lib.base.message import message_formatting
+    out = []
+    for mod in (message_formatting, helpers):
+        for k, v in list(vars(mod).items()):
+            if v is _REAL_EVAL:
+                out.append((mod, k, _counting_eval, v))
+            elif v is _REAL_EXEC:
+                out.append((mod, k, _counting_exec, v))
+    return out
+
+
 def guarded_parse(text: str, replacements: dict, env: dict, sentinel: Sentinel):
-    """from_human_string(safe=True) with the eval counter armed. Returns (message or None, exception or None, touched)."""
+    """from_human_string(safe=True) with three independent detectors armed: the sentinel object (env / replacements), a counter
+    around eval/exec (builtins and any module-level alias), and the import-based side-effect probe hmc.evalprobe (needs nothing
+    from the evaluator's namespace).  Returns (message or None, exception or None, touches)."""
     _EVALS[0] = 0
+    evalprobe.reset()
     n0 = sentinel.n
-    builtins.eval = _counting_eval
+    aliases = _alias_sites()
+    builtins.eval, builtins.exec = _counting_eval, _counting_exec
+    for mod, k, new, _old in aliases:
+        setattr(mod, k, new)
     try:
         try:
             msg, err = HMS.from_human_string(text, replacements=replacements, env=env, safe=True), None
         except Exception as e:  # noqa
             msg, err = None, e
     finally:
-        builtins.eval = _REAL_EVAL
-    return msg, err, (sentinel.n - n0) + _EVALS[0]
+        builtins.eval, builtins.exec = _REAL_EVAL, _REAL_EXEC
+        for mod, k, _new, old in aliases:
+            setattr(mod, k, old)
+    return msg, err, (sentinel.n - n0) + _EVALS[0] + evalprobe.hits()
 
 
 # ------------------------------------------------------------------------------------------------------------------------
@@ -345,12 +374,13 @@ def locate(name: str, dm: Message, pm: Message, labeler) -> List[Tuple[str, str]
     for bname in pm.blocks:
         if bname not in dm.blocks:
             out.append((f"{name}.{bname}:block-added", "block list appeared after the round trip", None))
-    seen, uniq = set(), []
+    seen, structural, variables = set(), [], []
     for s, d, c in out:
         if s not in seen:
             seen.add(s)
-            uniq.append((s, d, c))
-    return uniq[:6]
+            (variables if c else structural).append((s, d, c))
+    # every structural site (count0 is an open known finding: it must never stand in for, or crowd out, a variable's own site)
+    return variables[:6] + structural
 
 
 _BLAME_CACHE: Dict[tuple, tuple] = {}
@@ -493,12 +523,14 @@ def roundtrip(part: Part, ser: UDPMessageSerializer, dm: Message, wire: bytes, w
             for site, det, coords in sites:
                 part.violation(*classify(name, dm, coords, beautify, site), w, f"serialize(parsed) raised {e!r}; {det}")
             part.outcome(("serialize-raises", type(e).__name__))
+            count0_residue(part, ser, name, dm, pm, d1, sites, beautify, w)
             continue
         if d2 != d1:
             sites = locate(name, dm, pm, labeler) or [(f"{name}:body", "", None)]
             for site, det, coords in sites:
                 part.violation(*classify(name, dm, coords, beautify, site), w, f"datagram differs ({len(d1)} vs {len(d2)} bytes); {det}")
             part.outcome(("differs", len(d1) - len(d2)))
+            count0_residue(part, ser, name, dm, pm, d1, sites, beautify, w)
         elif d2 != wire:
             # the text is faithful to the parsed message, but the parsed message no longer encodes to the datagram it came from
             try:
@@ -512,6 +544,24 @@ def roundtrip(part: Part, ser: UDPMessageSerializer, dm: Message, wire: bytes, w
             part.outcome(("differs-from-wire", len(wire) - len(d2)))
         else:
             part.outcome(("ok", len(text.splitlines()) > len(text.spans) + 6, "=|" in text, "[[" in text, " \\\n" in text))
+
+
+def count0_residue(part, ser, name, dm, pm, d1, sites, beautify, w):
+    """When the only located differences are lost empty block lists (":count0", an open known finding), give the parsed message
+    those empty lists back and compare again: anything that still differs has another cause and gets a site of its own."""
+    if not sites or not all(s.endswith(":count0") for s, _, _ in sites):
+        return
+    try:
+        pm.blocks = {b: pm.blocks.get(b, type(dm.blocks[b])()) for b in dm.blocks}
+        d3 = bytes(ser.serialize(pm))
+    except Exception as e:  # noqa
+        part.violation("text-roundtrip", f"{name}:body-besides-empty-block-lists" + (":beautified" if beautify else ""), w,
+                       f"with the empty block lists restored, serialize(parsed) raised {e!r}")
+        return
+    part.count("count0_residue_checks")
+    if d3 != d1:
+        part.violation("text-roundtrip", f"{name}:body-besides-empty-block-lists" + (":beautified" if beautify else ""), w,
+                       f"with the empty block lists restored the datagram still differs ({len(d1)} vs {len(d3)} bytes)")
 
 
 _EAGER = Settings()
@@ -924,6 +974,15 @@ PAYLOADS: List[Tuple[str, str, Any]] = [
     ("literal-then-call", "1; SENTINEL()", None),
     ("continuation-call", "'a' \\\n+ SENTINEL()", None),
     ("continuation-eval-line", "'a' \\\n  Other =$ SENTINEL()", None),
+    # side-effect probe: observable without anything from the evaluator's namespace (hmc/evalprobe.py)
+    ("probe", evalprobe.EXPR, 7),
+    ("probe-in-dict", "{'a': %s}" % evalprobe.EXPR, {"a": 7}),
+    ("probe-in-list-in-tuple", "([1, %s], 'x')" % evalprobe.EXPR, ([1, 7], "x")),
+    ("probe-in-fstring", "f'{%s}'" % evalprobe.EXPR.replace("'", '"'), "7"),
+    ("probe-after-literal-or", "0 or %s" % evalprobe.EXPR, 7),
+    ("probe-continuation", "{'a': 1, \\\n    'b': %s}" % evalprobe.EXPR, {"a": 1, "b": 7}),
+    ("probe-continuation-3-lines", "( \\\n    %s, \\\n    2)" % evalprobe.EXPR, (7, 2)),
+    ("probe-ctor-call", "UUID(str(%s))" % evalprobe.EXPR, None),
     # literals that merely *contain* code: must come back as that very string / bytes (the "treated as data" side of the clause)
     ("quoted-call", "'SENTINEL()'", 0),
     ("quoted-import-bytes", "b\"__import__('os').getcwd()\"", None),
@@ -1009,31 +1068,40 @@ def safe_unit(part: Part, gen: TGen, name: str, ser, de):
         part.mark_nontrivial(("safe", name, beautify))
 
 
-def check_safe(part: Part, site: str, name: str, text: str, bname: str, idx: int, vn: str, would: Any):
+def safe_site(tag: str) -> str:
+    """tag is "operator:<op>" or "payload:<label>:<op>"; the violation site is the parser branch (the payload label goes into
+    the witness and the detail), so that a handful of sites describes any leak and all of them get printed."""
+    parts = tag.split(":")
+    return tag if parts[0] == "operator" else f"expression-under:{parts[-1]}"
+
+
+def check_safe(part: Part, tag: str, name: str, text: str, bname: str, idx: int, vn: str, would: Any):
     part.count("evaluations")
     part.count("safe_mode_evaluations")
     sentinel = Sentinel()
+    site = safe_site(tag)
     repl = {"SENTINEL": sentinel, "NULL_KEY": UUID(), "RANDOM_KEY": sentinel}
-    witness = {"kind": "safe", "name": name, "text": text, "block": bname, "index": idx, "var": vn, "site": site,
+    witness = {"kind": "safe", "name": name, "text": text, "block": bname, "index": idx, "var": vn, "site": tag,
                "would": would if isinstance(would, (int, str, float)) else repr(would)}
     msg, err, touched = guarded_parse(text, repl, {"SENTINEL": sentinel, "session": sentinel, "region": sentinel}, sentinel)
     if touched:
-        part.violation("safe-mode-eval", site, witness, f"safe=True evaluated text ({sentinel.n} sentinel touches, {_EVALS[0]} eval() calls); "
-                                                         f"outcome {'raised ' + repr(err) if err else 'returned a message'}")
-        part.outcome(("safe-evaluated", site))
+        part.violation("safe-mode-eval", site, witness,
+                       f"[{tag}] safe=True evaluated text ({sentinel.n} sentinel touches, {_EVALS[0]} eval/exec calls, {evalprobe.hits()} probe "
+                       f"hits); outcome {'raised ' + repr(err) if err else 'returned a message'}; line: {text.split(chr(10) + '  ' + vn + ' ')[-1][:120]!r}")
+        part.outcome(("safe-evaluated", tag))
         return
     if err is not None:
-        part.outcome(("safe-raises", type(err).__name__, site.split(":")[0]))
+        part.outcome(("safe-raises", type(err).__name__, tag.split(":")[0]))
         return
     try:
         got = msg.blocks[bname][idx][vn]
     except Exception:  # noqa
         got = None
-    if _is_value(got, would) and site.startswith("payload:"):
-        part.violation("safe-mode-eval", site, witness, f"expression was evaluated to {got!r}")
-        part.outcome(("safe-evaluated-value", site))
+    if _is_value(got, would) and tag.startswith("payload:"):
+        part.violation("safe-mode-eval", site, witness, f"[{tag}] expression was evaluated to {got!r}")
+        part.outcome(("safe-evaluated-value", tag))
     else:
-        part.outcome(("safe-data", site.split(":")[0], type(got).__name__))
+        part.outcome(("safe-data", tag.split(":")[0], type(got).__name__))
 
 
 # ------------------------------------------------------------------------------------------------------------------------
@@ -1071,7 +1139,7 @@ def run(run: Run):
         raise RuntimeError("reference template parse found too few templates")
     int_keys, byte_keys, unreachable = serializer_keys()
     units = [("subfield", k) for k in byte_keys] + [("dense", k) for k in int_keys]
-    units += [("rows", n) for n in names] + [("hdr", n) for n in msggen.HEADER_BASIS] + [("safe", n) for n in names]
+    units += [("rows", n) for n in names] + [("hdr", n) for n in msggen.HEADER_BASIS] + [("safe", n) for n in names]  # safe-mode last: see safe_site
     for d in pmap(_work, units, run.jobs, chunksize=1):
         run.merge(d)
     covered = {k[len("beautified:"):] for k in run.counters if k.startswith("beautified:")}
